@@ -92,26 +92,40 @@ def _setup(case):
         exec(src, {}, loc)
         ns['dbus_' + m['name']] = loc['dbus_' + m['name']]
     Obj = type('Calc', (O.DBusObject,), ns)
-    exp = conns[case['exporter']]
-    exp.exportObject(Obj('/calc'))
-    r = []
-    exp.requestBusName(SVC).addBoth(r.append)
-    if not net.run_fifo() or r != [1]:
-        raise N.RigFailure('exporter could not take its name: %r' % r)
+    for ei in _exporters(case):
+        exp = conns[ei]
+        exp.exportObject(Obj('/calc'))
+        r = []
+        exp.requestBusName(SVC + str(ei)).addBoth(r.append)
+        if not net.run_fifo() or r != [1]:
+            raise N.RigFailure('exporter %d could not take its name: %r' % (ei, r))
     return net, conns, iface, state
 
 
-def _proxy(net, conn, iface, mode):
+def _exporters(case):
+    return case.get('exporters') or [case['exporter']]
+
+
+def _route(case, call):
+    """-> (caller index, target exporter index) of a call"""
+    exps = _exporters(case)
+    target = exps[call.get('target', 0) % len(exps)]
+    callers = [i for i in range(case['nclients']) if i != target]
+    return callers[call['caller'] % len(callers)], target
+
+
+def _proxy(net, conn, iface, mode, target):
     from txdbus import interface as I
     res = []
+    svc = SVC + str(target)
     if mode == 'explicit':
-        d = conn.getRemoteObject(SVC, '/calc', iface)
+        d = conn.getRemoteObject(svc, '/calc', iface)
     elif mode == 'known':
         I.DBusInterface.knownInterfaces[IFACE] = iface
-        d = conn.getRemoteObject(SVC, '/calc', IFACE)
+        d = conn.getRemoteObject(svc, '/calc', IFACE)
     else:
         I.DBusInterface.knownInterfaces.pop(IFACE, None)
-        d = conn.getRemoteObject(SVC, '/calc')
+        d = conn.getRemoteObject(svc, '/calc')
     d.addBoth(res.append)
     if not net.run_fifo() or len(res) != 1 or hasattr(res[0], 'value'):
         raise N.RigFailure('getRemoteObject(%s) failed: %r' % (mode, res))
@@ -131,23 +145,25 @@ def _execute(case, choices=None):
     try:
         try:
             net, conns, iface, state = _setup(case)
-            callers = [i for i in range(case['nclients']) if i != case['exporter']]
             proxies = {}
-            for ci, mode in zip(callers, case['proxy_modes']):
-                proxies[ci] = _proxy(net, conns[ci], iface, mode)
+            for call in case['calls']:
+                ci, target = _route(case, call)
+                if (ci, target) not in proxies:
+                    mode = case['proxy_modes'][(ci + target) % len(case['proxy_modes'])]
+                    proxies[(ci, target)] = _proxy(net, conns[ci], iface, mode, target)
         except N.RigFailure as e:
             return [Disc('setup.failed', str(e))], bfs
         results = {}
         specs = {}
         for tok, call in enumerate(case['calls'], start=1):
-            ci = callers[call['caller'] % len(callers)]
+            ci, target = _route(case, call)
             spec = case['methods'][call['method'] % len(case['methods'])]
             specs[tok] = spec
             state['outcomes'][tok] = call['outcome']
             args = [tok] + (S.to_py_list(spec['in'], call['trees'], call.get('pres', [])) if spec['in'] else [])
             results[tok] = []
             try:
-                d = proxies[ci].callRemote(spec['name'], *args)
+                d = proxies[(ci, target)].callRemote(spec['name'], *args)
             except Exception as e:
                 out.append(Disc(exc_key(e, 'callRemote.raises'), exc_detail(e)))
                 return out, bfs
@@ -258,6 +274,8 @@ def run_dfs(case):
 def classify(case):
     labels = ['clients=%d' % case['nclients']]
     nt = False
+    if len(_exporters(case)) > 1:
+        labels.append('several_exporters')
     if len(case['calls']) >= 2:
         nt = True
         labels.append('concurrent_calls')
@@ -298,12 +316,21 @@ def scenario(draw, tier, dfs=False):
         calls.append({'caller': draw(st.integers(0, 3)), 'method': mi,
                       'trees': [draw(S.tree_for(t, 2)) for t in R.split_inner(spec['in'])],
                       'pres': draw(S.presentation), 'outcome': oc})
+    if dfs and len(calls) == 2 and draw(st.booleans()):
+        # cross calls: both clients export, each calls the other
+        calls[0]['target'], calls[1]['target'] = 0, 1
     case = {'nclients': nclients, 'exporter': draw(st.integers(0, nclients - 1)), 'methods': methods,
             'proxy_modes': [draw(st.sampled_from(['explicit', 'known', 'introspect'])) for _ in range(ncallers)],
             'calls': calls, 'fire_reversed': draw(st.booleans())}
     if dfs:
         case['cap'] = 300 if tier == 'quick' else 3000
+        if any('target' in c for c in calls):
+            case['exporters'] = [0, 1]
     else:
+        if nclients >= 3 and draw(st.booleans()):
+            case['exporters'] = sorted(draw(st.lists(st.integers(0, nclients - 1), min_size=2, max_size=nclients, unique=True)))
+            for c in calls:
+                c['target'] = draw(st.integers(0, 3))
         case['schedule'] = draw(st.lists(st.tuples(st.integers(0, 7), st.sampled_from([0, 0, 0, 1, 5, 16, 64, 1 << 20])).map(list),
                                          min_size=1, max_size=12))
     return case
